@@ -286,6 +286,22 @@ def _natural(case, ctx, g):
     r1, r2 = _expectation_grad(mu.detach(), Sref, g_mu, g_L)
     ctx.close("natural_backward_is_natural_gradient", d1, r1, (1e-8, 1e-8), cls="natural:eta1", batch=b)
     ctx.close("natural_backward_is_natural_gradient", d2, r2, (1e-8, 1e-8), cls="natural:eta2", batch=b)
+    # objectives that use only ONE of the two outputs (a predictive variance depends on q(u) through its covariance
+    # alone), and one of the two parameters frozen: still the natural gradient of that objective
+    for which in ("only_L", "only_mu", "frozen_mat", "frozen_vec"):
+        a1 = th1.detach().clone().requires_grad_(which != "frozen_vec")
+        a2 = th2.detach().clone().requires_grad_(which != "frozen_mat")
+        mu_, L_ = _NaturalToMuVarSqrt.apply(a1, a2)
+        gm_ = None if which == "only_L" else g_mu
+        gL_ = None if which == "only_mu" else g_L
+        obj_ = (0 if gm_ is None else (mu_ * gm_).sum()) + (0 if gL_ is None else (L_ * gL_).sum())
+        ins = [t_ for t_ in (a1, a2) if t_.requires_grad]
+        got_ = torch.autograd.grad(obj_, ins, allow_unused=True)
+        q1, q2 = _expectation_grad(mu.detach(), Sref, torch.zeros_like(g_mu) if gm_ is None else gm_, torch.zeros_like(g_L) if gL_ is None else gL_)
+        want_ = [q_ for q_, t_ in ((q1, a1), (q2, a2)) if t_.requires_grad]
+        for gi, wi, nm in zip(got_, want_, [n_ for n_, t_ in (("eta1", a1), ("eta2", a2)) if t_.requires_grad]):
+            gi = torch.zeros_like(wi) if gi is None else gi
+            ctx.close("natural_backward_is_natural_gradient", gi, wi, (1e-8, 1e-8), cls=f"natural:{nm}:{which}", batch=b, variant=which)
     ctx.cell({k: v for k, v in case.items() if k != "seed"})
 
 
@@ -332,6 +348,17 @@ def _tril(case, ctx, g):
 
     _, jv = torch.autograd.functional.jvp(chart, (theta,), (r2,))
     ctx.close("tril_natural_backward", dT, jv, (1e-7, 1e-7), cls="tril:tril_mat", batch=b)
+    # only one output used / the matrix parameter frozen: the vector part is still the natural gradient of that objective
+    for which in ("only_L", "only_mu", "frozen_mat"):
+        b1 = t1.detach().clone().requires_grad_(True)
+        bT = T.detach().clone().requires_grad_(which != "frozen_mat")
+        mu_, L_ = _TrilNaturalToMuVarSqrt.apply(b1, bT)
+        gm_ = None if which == "only_L" else g_mu
+        gL_ = None if which == "only_mu" else g_L
+        obj_ = (0 if gm_ is None else (mu_ * gm_).sum()) + (0 if gL_ is None else (L_ * gL_).sum())
+        (gv_,) = torch.autograd.grad(obj_, [b1], allow_unused=True)
+        q1, _ = _expectation_grad(mu.detach(), Sref, torch.zeros_like(g_mu) if gm_ is None else gm_, torch.zeros_like(g_L) if gL_ is None else gL_)
+        ctx.close("tril_natural_backward", torch.zeros_like(q1) if gv_ is None else gv_, q1, (1e-8, 1e-8), cls=f"tril:eta1:{which}", batch=b, variant=which)
     ctx.cell({k: v for k, v in case.items() if k != "seed"})
 
 
